@@ -20,6 +20,7 @@ import (
 	"fmt"
 	"os"
 	"reflect"
+	"runtime"
 	"strings"
 
 	"github.com/sqlc-dev/doubleclick/ast"
@@ -354,6 +355,41 @@ func gen(args []string) {
 			}
 			fmt.Fprintln(out, hx([]byte(strings.Join(toks, " "))))
 		}
+	case "chains":
+		// flat chains of n elements of every list-like construct (n = -n argument): work and memory must stay linear
+		k := *n
+		rep := func(unit, sep string) string {
+			var sb strings.Builder
+			for i := 0; i < k; i++ {
+				if i > 0 {
+					sb.WriteString(sep)
+				}
+				sb.WriteString(unit)
+			}
+			return sb.String()
+		}
+		for _, op := range []string{"OR", "AND", "||", "+", "-", "*", "=", "<", "LIKE", "IN", "IS NOT DISTINCT FROM", "<=>", "DIV", "MOD", "."} {
+			sep := " " + op + " "
+			if op == "." {
+				sep = "."
+			}
+			fmt.Fprintln(out, hx([]byte("SELECT "+rep("c = 1", sep)+" FROM t")))
+			fmt.Fprintln(out, hx([]byte("SELECT * FROM t WHERE "+rep("c", sep))))
+		}
+		for _, c := range []string{
+			"SELECT " + rep("a", ", ") + " FROM t", "SELECT f(" + rep("1", ", ") + ")", "SELECT [" + rep("1", ", ") + "]", "SELECT (" + rep("'s'", ", ") + ")",
+			"SELECT x IN (" + rep("1", ", ") + ")", "SELECT x IN (" + rep("'a'", ", ") + ") AS y", "SELECT CASE " + rep("WHEN a THEN 1", " ") + " END",
+			rep("SELECT 1", " UNION ALL "), rep("SELECT 1", " UNION DISTINCT "), rep("SELECT 1", " INTERSECT "), rep("SELECT 1", "; "), rep("(SELECT 1)", " UNION ALL "),
+			"SELECT 1 FROM " + rep("t", ", "), "SELECT 1 FROM t " + rep("JOIN u ON a = b", " "), "SELECT 1 FROM t ORDER BY " + rep("a DESC", ", "), "SELECT 1 FROM t GROUP BY " + rep("a", ", "),
+			"WITH " + rep("1 AS a", ", ") + " SELECT a", "SELECT 1 SETTINGS " + rep("a = 1", ", "), "INSERT INTO t VALUES " + rep("(1, 'a')", ", "), "INSERT INTO t (" + rep("c", ", ") + ") SELECT 1",
+			"CREATE TABLE t (" + rep("c UInt8", ", ") + ") ENGINE = Memory", "ALTER TABLE t " + rep("ADD COLUMN c UInt8", ", "), "SELECT CAST(1 AS Tuple(" + rep("a UInt8", ", ") + "))",
+			"SELECT CAST(1 AS Enum8(" + rep("'a' = 1", ", ") + "))", "SELECT " + rep("a ? b :", " ") + " c", "SELECT a" + rep("[1]", ""), "SELECT a" + rep(".1", ""), "SELECT a" + rep("::Int8", ""),
+			"SELECT " + rep("NOT", " ") + " a", "SELECT " + rep("-", " ") + " a", "SELECT f(x)" + rep(" OVER ()", ""), "SELECT " + rep("x -> ", "") + "1", "SET " + rep("a = 1", ", "),
+			"SELECT 1 FROM t WINDOW " + rep("w AS ()", ", "), "SELECT 1 ORDER BY a WITH FILL INTERPOLATE (" + rep("a AS a", ", ") + ")", "GRANT " + rep("SELECT", ", ") + " ON t TO u",
+			"SELECT * EXCEPT (" + rep("a", ", ") + ") FROM t", "SELECT * REPLACE (" + rep("1 AS a", ", ") + ") FROM t", "SELECT " + rep("/* c */", " ") + " 1", "SELECT " + rep("'a'", " "),
+		} {
+			fmt.Fprintln(out, hx([]byte(c)))
+		}
 	case "nest":
 		size := *n
 		units := []struct{ open, close string }{{"(", ")"}, {"[", "]"}, {"f(", ")"}, {"CASE WHEN ", " THEN 1 END"}, {"(SELECT ", ")"}, {"NOT ", ""}, {"- ", ""}, {"a.", ""}, {"1 + ", ""}, {"x IN (", ")"}}
@@ -430,6 +466,10 @@ func maxNesting(src []byte) int {
 	return m
 }
 
+// measureAlloc / parseAlloc: bytes allocated by ParseStatements alone (set by run when -mem is given)
+var measureAlloc bool
+var parseAlloc int64
+
 func runOne(src []byte, E, B int64, wantExplain bool) (status string, tokens, steps int64, detail, explain string) {
 	func() {
 		defer func() {
@@ -474,7 +514,15 @@ func runOne(src []byte, E, B int64, wantExplain bool) (status string, tokens, st
 				}
 			}
 		}()
+		var m0, m1 runtime.MemStats
+		if measureAlloc {
+			runtime.ReadMemStats(&m0)
+		}
 		stmts, err = p.ParseStatements(context.Background())
+		if measureAlloc {
+			runtime.ReadMemStats(&m1)
+			parseAlloc = int64(m1.TotalAlloc - m0.TotalAlloc)
+		}
 	}()
 	steps = p.VerifSteps()
 	if status != "" {
@@ -547,6 +595,7 @@ func run(args []string) {
 	B := fs.Int64("B", 305, "B of the proved step bound")
 	K := fs.Int64("K", 64, "empirical bound of the property: steps <= K*(tokens+16), K calibrated on the corpus (max observed 13.5) with a safety factor")
 	ex := fs.Bool("explain", false, "append the hex EXPLAIN text of accepted inputs")
+	memBound := fs.Int64("mem", 0, "if > 0: status MEM when more than this many bytes per token are allocated (inputs of at least 512 tokens)")
 	fs.Parse(args)
 	in := bufio.NewScanner(os.Stdin)
 	in.Buffer(make([]byte, 1<<22), 1<<26)
@@ -562,9 +611,17 @@ func run(args []string) {
 				os.Exit(2)
 			}
 		}
+		measureAlloc = *memBound > 0
 		st, tk, steps, detail, expl := runOne(src, *E, *B, *ex)
 		if st != "BUDGET" && st != "PANIC" && steps > *K*(tk+16) {
 			st, detail = "SLOW", fmt.Sprintf("steps %d > %d*(tokens+16)", steps, *K)
+		}
+		if *memBound > 0 && st != "BUDGET" && st != "PANIC" && st != "SLOW" {
+			// memory "bounded likewise": bytes allocated by Parse (+ Marshal/Explain of accepted input) per token
+			alloc := parseAlloc
+			if tk >= 512 && alloc > *memBound*(tk+16) {
+				st, detail = "MEM", fmt.Sprintf("allocated %d bytes = %d per token > %d*(tokens+16)", alloc, alloc/(tk+16), *memBound)
+			}
 		}
 		if *ex {
 			fmt.Fprintf(out, "%s\t%d\t%d\t%s\t%s\n", st, tk, steps, detail, expl)
